@@ -89,12 +89,10 @@ EXPORT int wprintf_s(const wchar_t *restrict fmt, ...) {
     }
 
 #if defined(HAVE_WCSSTR) || !defined(SAFECLIB_DISABLE_EXTENSIONS)
-    if (unlikely((p = wcsstr((wchar_t *)fmt, L"%n")))) {
-        if ((p - fmt == 0) || *(p - 1) != L'%') {
-            invoke_safe_str_constraint_handler("wprintf_s: illegal %n", NULL,
-                                               EINVAL);
-            return -(EINVAL);
-        }
+    if (unlikely((p = safec_wfmt_find_n(fmt)) != NULL)) {
+        invoke_safe_str_constraint_handler("wprintf_s: illegal %n", NULL,
+                                           EINVAL);
+        return -(EINVAL);
     }
 #elif defined(HAVE_WCSCHR)
     if (unlikely((p = wcschr(fmt, flen, L'n')))) {
